@@ -58,7 +58,10 @@ def match_known(known, prop, group, ob):
             continue
         if k.get('group') and k['group'] != group:
             continue
-        if k['obligation'] in key:
+        if k.get('pattern'):
+            if re.search(k['pattern'], key):
+                return k
+        elif k['obligation'] in key:
             return k
     return None
 
@@ -91,7 +94,7 @@ def conclude(prop, tier, seed, comps, metas, results, infra, t_start, verbose=Fa
         solver_s += r.get('solver_s', 0)
         # vacuity: the end-of-harness assertion must be refutable
         vac = [o for o in obs if 'VACUITY' in o['tags']]
-        if not vac:
+        if not vac and not g.native:
             infra.append('%s: vacuity probe missing' % gname)
         for o in vac:
             if o['status'] != 'FAILURE':
@@ -107,8 +110,8 @@ def conclude(prop, tier, seed, comps, metas, results, infra, t_start, verbose=Fa
         ok = [o for o in mine if o['status'] == 'SUCCESS']
         bad = [o for o in mine if o['status'] != 'SUCCESS']
         if g.level == 'bounded':
-            n_bounded += len(mine)
-            n_bounded_ok += len(ok)
+            n_bounded += sum(o.get('weight', 1) for o in mine)
+            n_bounded_ok += sum(o.get('weight', 1) for o in ok)
         else:
             n_ob += len(mine)
             n_ok += len(ok)
